@@ -42,7 +42,8 @@ def run_binary(case):
 class C15(core.Prop):
     pid = 'C15'
     lean_modules = ['TddaVerif.Props.C15']
-    theorems = []
+    theorems = ['TddaVerif.Props.C15.' + t for t in ['pass_writes_nothing', 'raw_actual_content', 'file_actual_not_rewritten',
+        'binary_offset_exact', 'diffMarker_shape', 'diffMarker_self', 'postprocessed_differ_exactly']]
     quick_n = 500
     thorough_n = 30000
     rule = ('cases: the (actual, reference, options, entry point) cases of C04 (near-miss edits x option subsets x '
